@@ -151,6 +151,18 @@ def align (mode : Mode) (req : Option (List Nat)) (data : List Entry) : Except A
         | .error x => .error x
       else .ok e
 
+/-- One call of a history: `DataLoader.time_align_data(data, mode, message_types = req)`. -/
+structure Call where
+  mode : Mode
+  req : Option (List Nat)
+  deriving DecidableEq, Repr
+
+/-- Several alignments of the SAME dict, one after the other (each call replaces `entry.messages` in place, the
+next call starts from those lists; nothing else is carried from one call to the next).  A message fabricated by
+an earlier call is an ordinary element of the list the next call reads. -/
+def alignSeq (calls : List Call) (data : List Entry) : Except AlignErr (List Entry) :=
+  calls.foldlM (fun d c => align c.mode c.req d) data
+
 /-! ### Specification -/
 
 /-- `v` is a (valid) time of every aligned type / of some aligned type / some aligned type has a NaN time -/
@@ -192,5 +204,9 @@ def specTimes (mode : Mode) (req : Option (List Nat)) (data : List Entry) : List
 /-- executable specification of the whole operation -/
 def specAlign (mode : Mode) (req : Option (List Nat)) (data : List Entry) : List Entry :=
   data.map fun e => if selected req e then { e with msgs := (specTimes mode req data).map (pick e.msgs) } else e
+
+/-- specification of a history of calls: the one-call specification applied to the lists the previous call left -/
+def specAlignSeq (calls : List Call) (data : List Entry) : List Entry :=
+  calls.foldl (fun d c => specAlign c.mode c.req d) data
 
 end FeVerif.Align
